@@ -47,6 +47,13 @@ def anyCmd (cmd : String) (hs : List String) : String :=
   | some t =>
     if cmd == "A" || cmd == "AN" then
       (if compilePanics t || nestPanics t then "panic" else s!"ok - | {hexStr (compilePattern t).toList}")
+    else if cmd == "XA" then
+      (match isExhaustive t with
+       | .error _ => "panic"
+       | .ok .always => "always"
+       | .ok .sometimes => "sometimes"
+       | .ok .never => "never")
+    else if cmd == "F09A" then cmdF09 t
     else cmdF t
 
 def handle (line : String) : String :=
@@ -169,6 +176,8 @@ def handle (line : String) : String :=
   | "AN" :: _ :: hs => anyCmd "AN" hs
   | "FA" :: _ :: hs => anyCmd "FA" hs
   | "FAN" :: _ :: hs => anyCmd "FAN" hs
+  | "XA" :: _ :: hs => anyCmd "XA" hs
+  | "F09A" :: _ :: hs => anyCmd "F09A" hs
   | ["F06", h] =>
     match parse (unhex h) with
     | .err _ => "err"
